@@ -216,6 +216,36 @@ theorem curveRaiseOrder_spec (o : Obj K) (tol : K) (b b' : Basis K) (a : ℕ) (h
     intro k hk
     rw [hge k (Finset.mem_range.mp hk) c hc]
 
+/-- `Curve.raise_order(a)`, `a ≥ 1`, does not fail when the collocation matrix has a left inverse
+    (the certificate-checked exact solve is complete: `Mat.solveChecked_complete`). -/
+theorem curveRaiseOrder_succeeds (o : Obj K) (tol : K) (b b' : Basis K) (a : ℕ) (ha : 1 ≤ a) (pts : Array K)
+    (n nc : ℕ) (hn : 0 < n) (hb : o.bases = #[b]) (hs : o.cps.shape = [n, nc])
+    (hb' : b.raiseOrder tol a = .ok b') (hg : b'.greville = .ok pts) (hpts : 0 < pts.size)
+    (L : ℕ → ℕ → K)
+    (H_sw : ∀ i, i < pts.size → ∀ j, j < pts.size →
+      ∑ l ∈ Finset.range pts.size, L i l * (Obj.basisMat b' tol pts.toList 0 true).get l j = if i = j then 1 else 0) :
+    ∃ o', o.curveRaiseOrder tol (a : Int) = .ok (.self, o') := by
+  have hsz := greville_size b' pts hg
+  have hlen : pts.toList.length = pts.size := by simp
+  have hshape := basisMat_shape b' tol pts.toList (by simpa using hsz)
+  rw [hlen] at hshape
+  set Nold := Obj.basisMat b tol pts.toList 0 true with hNold
+  have hrowsO : Nold.nrows = pts.size := by simp [Mat.nrows, hNold, basisMat_size]
+  have hXshape : (Mat.mul Nold (Obj.cpsMat o.cps)).size = pts.size ∧
+      ∀ i, i < pts.size → ((Mat.mul Nold (Obj.cpsMat o.cps)).getD i #[]).size = nc := by
+    unfold Mat.mul
+    refine ⟨by simp [hrowsO], fun i hi => ?_⟩
+    simp [Array.getD, hrowsO, hi, cpsMat_ncols o.cps n nc hs hn]
+  obtain ⟨C, hC⟩ := Mat.solveChecked_complete _ _ pts.size nc hshape hXshape hpts L
+    (fun i j hi hj => H_sw i hi j hj)
+  unfold Obj.curveRaiseOrder
+  have h1 : ¬ ((a : Int) < 0) := by omega
+  have h2 : ¬ ((a : Int) = 0) := by omega
+  have hb0 : o.basis 0 = b := by simp [Obj.basis, hb]
+  simp only [h1, h2, if_false, hb0, Int.toNat_natCast, hb', hg]
+  rw [← hNold, hC]
+  exact ⟨_, rfl⟩
+
 /-! ## The guard of `SplineObject.raise_order` -/
 
 theorem continuity_first_knot (b : Basis K) (tol : K) (htol : 0 < tol) (hmono : Monotone b.kn)
@@ -260,6 +290,53 @@ theorem raiseGuard_ne_false (tol : K) (htol : 0 < tol) (b : Basis K) (rest : Lis
   · rcases continuity_first_knot b tol htol hmono hsz hper with h | ⟨c, h, hc⟩
     · simp [h]
     · simp [h, hc]
+
+/-! ## Statement shorthand and small facts for `C05_geometry_clamped` -/
+
+/-- "`o'` is `o` elevated from basis `b` to `b'`" (one parametric direction, `nc` homogeneous
+    components): same rationality, single basis `b'`, the homogeneous evaluated map
+    `Σ_k N'_k(t) P'_k` equals `Σ_j N_j(t) P_j` for EVERY parameter `t` and component (so also the
+    projected rational map), and a component that is non-negative on all old control points
+    (e.g. the weights) is non-negative on all new ones. -/
+def ElevatedFrom (tol : K) (b b' : Basis K) (nc : ℕ) (o o' : Obj K) : Prop :=
+  o'.bases = #[b'] ∧ o'.rational = o.rational ∧
+  (∀ t, ∀ c, c < nc →
+    ∑ k ∈ Finset.range b'.numFunctions, (b'.evaluate tol t 0 true).getD k 0 * o'.cps.get (k * nc + c)
+      = ∑ j ∈ Finset.range b.numFunctions, (b.evaluate tol t 0 true).getD j 0 * o.cps.get (j * nc + c)) ∧
+  (∀ c, c < nc → (∀ j, j < b.numFunctions → 0 ≤ o.cps.get (j * nc + c)) →
+    ∀ k, k < b'.numFunctions → 0 ≤ o'.cps.get (k * nc + c))
+
+theorem greville_ok (b : Basis K) (h : b.order ≠ 1) : ∃ pts, b.greville = .ok pts := by
+  unfold Basis.greville
+  simp only
+  rw [if_neg (fun hc => h hc.1)]
+  exact ⟨_, rfl⟩
+
+theorem numFunctions_clamped (p : ℕ) (x0 xl : K) (umid : List K) (mmid : List ℕ)
+    (hlen : umid.length = mmid.length) :
+    (openBasis p (clampedU x0 xl umid) (clampedM p mmid)).numFunctions = p + (expand umid mmid).length := by
+  unfold Basis.numFunctions
+  show (expand (clampedU x0 xl umid) (clampedM p mmid)).toArray.size - p - ((-1 : Int) + 1).toNat = _
+  rw [expand_clamped p x0 xl umid mmid hlen]
+  simp; omega
+
+/-- The guard of `SplineObject.raise_order` is `True` for a clamped first basis. -/
+theorem raiseGuard_clamped (tol : K) (htol : 0 < tol) (p : ℕ) (hp : 1 ≤ p) (x0 xl : K) (umid : List K)
+    (mmid : List ℕ) (hlen : umid.length = mmid.length) (hsep : Separated tol (clampedU x0 xl umid))
+    (hm : ∀ j ∈ mmid, 1 ≤ j) (rest : List (Basis K)) :
+    Obj.raiseGuard tol (openBasis p (clampedU x0 xl umid) (clampedM p mmid) :: rest) = .ok true := by
+  have hk0 : (openBasis p (clampedU x0 xl umid) (clampedM p mmid)).kn 0 = x0 :=
+    kn_zero_expand p (-1) x0 (umid ++ [xl]) p (mmid ++ [p]) hp
+  have hc := continuity_clamped tol htol p hp x0 xl umid mmid hlen hsep hm 0
+    (by simp [clampedU]) (by simp [clampedM])
+  have e1 : (clampedU x0 xl umid)[0]'(by simp [clampedU]) = x0 := rfl
+  have e2 : (clampedM p mmid)[0]'(by simp [clampedM]) = p := rfl
+  rw [e1, e2] at hc
+  unfold Obj.raiseGuard
+  rw [hk0, hc]
+  have hord : (openBasis p (clampedU x0 xl umid) (clampedM p mmid)).order = p := rfl
+  have : ((p : Int) - (p : Int) - 1 < (p : Int)) := by omega
+  simp only [hord, this, decide_true, Bool.true_or, if_true]
 
 /-! ## Concrete instances used by the non-vacuity examples of `Properties/C05.lean` -/
 
